@@ -50,11 +50,11 @@ RULE_B = ("c09b (stage B): one real iavl.MutableTree over MemDB, 16 short collid
 
 def run_stage_b(ctx):
     ctx.rule(RULE_B)
-    nb = 12000 if ctx.thorough else 900
+    nb = 12000 if ctx.thorough else 700
     ctx.stream("heap-default", "c09b", "Driver/C09b.lean", n=nb, seed=ctx.seed * 1000 + 21, drv_timeout=3000, timeout=3000)
-    ctx.stream("heap-cache2", "c09b", "Driver/C09b.lean", n=nb if ctx.thorough else 600, seed=ctx.seed * 1000 + 22, args=["-cache", "2"],
+    ctx.stream("heap-cache2", "c09b", "Driver/C09b.lean", n=nb if ctx.thorough else 450, seed=ctx.seed * 1000 + 22, args=["-cache", "2"],
                drv_timeout=3000, timeout=3000)
-    ctx.stream("heap-cache0", "c09b", "Driver/C09b.lean", n=nb if ctx.thorough else 600, seed=ctx.seed * 1000 + 23, args=["-cache", "0", "-keys", "24"],
+    ctx.stream("heap-cache0", "c09b", "Driver/C09b.lean", n=nb if ctx.thorough else 450, seed=ctx.seed * 1000 + 23, args=["-cache", "0", "-keys", "24"],
                drv_timeout=3000, timeout=3000)
 
 
